@@ -162,12 +162,20 @@ def boot_histories(tier, rnd):
     map on a 32- and an 8-slot chain, every single key absent / of another Go type - also the phase0 ones and
     SLOTS_PER_EPOCH -, the maps of nodes of earlier forks, the failed lookup; thorough: every assignment of
     listed / absent / other Go type to the five later keys as well, on both chains) x every operation the signer
-    offers on one account of each kind (and the registration that carries nothing to sign).  Start-up inputs the
-    pinned New() refuses are run with the wallet account only (quick); thorough: a seeded sample of the whole."""
+    offers on one account of each kind (and the registration that carries nothing to sign).  Quick: all four
+    kinds on the complete maps, one account of each family (wallet, dirk) on the incomplete ones, the wallet
+    account only on start-up inputs the pinned New() refuses; thorough: a seeded sample of the whole."""
     cfg = "Scen_Signer_boot.cfg" if tier == "quick" else "Scen_Signer_boot_big.cfg"
     hs = vf.tlc_scenarios(PID, "Scen_Signer", cfg, exhaustive=True, timeout=1500, heap="6g", name="scen-boot")
     if tier == "quick":
-        sel = [h for h in hs if not phase0_broken(h[0]["boot"]) or h[1]["kinds"] == ["plain"]]
+        def keep(h):
+            b, kinds = h[0]["boot"], h[1]["kinds"]
+            if complete(b):
+                return True                          # all four account kinds
+            if phase0_broken(b):
+                return kinds == ["plain"]            # the pinned New() refuses: one request to see that it does
+            return kinds in (["plain"], ["prot"])    # one account of each family
+        sel = [h for h in hs if keep(h)]
     else:
         rnd.shuffle(hs)
         sel = hs[:N_BOOT_THOROUGH]
